@@ -10,6 +10,10 @@ Output : `script <tag>` echoed; one line per operation; after an operation
 -/
 namespace Cstl
 
+/-- the value with which the k-th visit asks a traversal to stop (harness/common.h `h_stop_value`) -/
+def stopValue (k : Int) : Int := if k % 2 = 1 then -3 else 7
+
+
 def splitWords (line : String) : List String :=
   (line.trimAscii.toString.splitOn " ").filter (· ≠ "")
 
